@@ -68,7 +68,7 @@ class POSet:
                 if len(elements) < 10:
                     for el_i, subels_i in descendants_dict.items():
                         for el_i_1 in range(len(self._elements)):
-                            leq_dict[(el_i_1, el_i)] = el_i_1 in subels_i
+                            leq_dict[(el_i_1, el_i)] = el_i_1 == el_i or el_i_1 in subels_i
             else:  # if children_dict is None, initialize caches as empty
                 leq_dict, children_dict, descendants_dict, parents_dict, ancestors_dict =\
                     {}, {}, {}, {}, {}
@@ -265,9 +265,10 @@ class POSet:
         if key in self._cache_leq:
             res = self._cache_leq[key]
         elif b_index in self._cache_descendants:
-            res = a_index in self._cache_descendants[b_index]
+            # the cached (strict) descendants/ancestors never contain the element itself
+            res = a_index == b_index or a_index in self._cache_descendants[b_index]
         elif a_index in self._cache_ancestors:
-            res = b_index in self._cache_ancestors[a_index]
+            res = a_index == b_index or b_index in self._cache_ancestors[a_index]
         else:
             res = self._leq_elements_nocache(a_index, b_index)
             self._cache_leq[key] = res
